@@ -55,6 +55,8 @@ type Exec struct {
 	isSnapshot bool
 	cloner   *cloner
 	intUFApps map[string][]*intUFApp
+	jsonVals []jsonVal
+	jsonTop  bool
 }
 
 type ufApp struct {
@@ -957,6 +959,14 @@ func (x *Exec) strEq(a, b *Str) *Term {
 			return mkEq(a.inj, b.inj)
 		}
 		panic(unsupported{"comparison of injective big.Int string with ordinary string"})
+	}
+	if a.opaqueArgs != nil && b.opaqueArgs != nil && a.opaque == b.opaque && len(a.opaqueArgs) == len(b.opaqueArgs) {
+		// the same single-verb format applied to two argument lists: equal iff the arguments are
+		r := constTrue
+		for i := range a.opaqueArgs {
+			r = mkAnd(r, x.valEq(a.opaqueArgs[i], b.opaqueArgs[i]))
+		}
+		return r
 	}
 	a.check()
 	b.check()
